@@ -145,12 +145,28 @@ struct FenvEngine : Engine {
             std::uint64_t blocks = (K + per - 1) / per;
             for (int rc = 0; rc < 4; ++rc) { segs.push_back({i, rc, sweep_total, blocks}); sweep_total += blocks; }
         }
+        if (std::getenv("VERIF_EXHAUSTIVE") && (prop == "C11" || prop.empty())) {
+            // the widest 32-bit float vector of the configuration plus vec4x32f (the type with the hand-written SSE2 emulation)
+            std::string widest; unsigned ww = 0; for (auto& o : ops) if (o.op->elem == 4 && std::strncmp(o.op->type, "vec", 3) == 0 && o.op->width > ww) { ww = o.op->width; widest = o.op->type; }
+            for (auto& o : ops) if (o.fi->rounding && o.op->elem == 4 && (widest == o.op->type || std::string("vec4x32f") == o.op->type)) exh_ops.push_back(&o);
+        }
         return "";
     }
 
+    // exhaustive float32 sweeps (thorough tier, selected configurations): every one of the 2^32 bit patterns through
+    // each of the six rounding functions under each of the four modes, for the 32-bit float types chosen in init()
+    std::vector<const OpRef*> exh_ops; static const unsigned EXH_CHUNK_BITS = 20;
+    std::uint64_t exh_plans() const { return (std::uint64_t)exh_ops.size() * 4 * (1ull << (32 - EXH_CHUNK_BITS)); }
+    void exh_plan(std::uint64_t idx, Plan& out) {
+        const std::uint64_t chunks = 1ull << (32 - EXH_CHUNK_BITS);
+        const OpRef* o = exh_ops[(std::size_t)(idx / (4 * chunks))]; int rc = (int)((idx / chunks) % 4); std::uint64_t chunk = idx % chunks;
+        out.head.op = "plan"; out.head.set("engine", "fenv"); out.head.set("prop", prop); out.head.set("kind", "exhaustive");
+        Step e; e.op = "setenv"; e.set("rc", rc); e.set("ftz", 0); e.set("daz", 0); out.steps.push_back(e);
+        Step c; c.op = "callrange"; c.set("fn", o->op->fn); c.set("type", o->op->type); c.sethex("lo", chunk << EXH_CHUNK_BITS); c.setu("count", 1ull << EXH_CHUNK_BITS); out.steps.push_back(c);
+    }
     static const unsigned API_STEPS = 32;
     std::uint64_t api_sweep_plans() const { return api.empty() ? 0 : (api.size() * 8 + API_STEPS - 1) / API_STEPS; }
-    std::uint64_t sweep_count() override { return sweep_total + api_sweep_plans(); }
+    std::uint64_t sweep_count() override { return sweep_total + api_sweep_plans() + exh_plans(); }
     // every (type, public operation) once under each of the 4 rounding modes x {FTZ/DAZ off, on}
     void api_sweep_plan(std::uint64_t idx, Plan& out) {
         out.head.op = "plan"; out.head.set("engine", "fenv"); out.head.set("prop", prop); out.head.set("kind", "sweep_api");
@@ -170,6 +186,7 @@ struct FenvEngine : Engine {
     }
 
     void sweep_plan(std::uint64_t idx, Plan& out) override {
+        if (idx >= sweep_total + api_sweep_plans()) { exh_plan(idx - sweep_total - api_sweep_plans(), out); return; }
         if (idx >= sweep_total) { api_sweep_plan(idx - sweep_total, out); return; }
         // find segment
         std::size_t lo = 0, hi = segs.size();
@@ -332,6 +349,37 @@ struct FenvEngine : Engine {
         }
     }
 
+    // `count` consecutive float32 bit patterns starting at `lo`, packed width lanes per call
+    void callrange_step(const Step& st, int stepno, const Env& env, RunResult& rr, Stats& stats) {
+        const OpRef* o = find_op(st.str("type"), st.str("fn"));
+        if (!o || o->op->elem != 4 || o->op->arity != 1) { rr.log.linef("%d callrange skip", stepno); return; }
+        const unsigned w = o->op->width; std::uint64_t lo = st.unum("lo"), count = st.unum("count");
+        alignas(64) std::uint32_t a[16], out[16], z[16] = {0};
+        char envs[48]; std::snprintf(envs, sizeof envs, "rc=%s", RCNAME[env.rc]);
+        std::uint64_t digest = 0; apply_env(env);
+        const std::uint32_t mx0 = get_mxcsr();
+        for (std::uint64_t p = 0; p < count; p += w) {
+            for (unsigned i = 0; i < w; ++i) a[i] = (std::uint32_t)(lo + p + i);
+            o->op->call(a, z, out);
+            for (unsigned i = 0; i < w && p + i < count; ++i) {
+                std::uint32_t exp = ref32(o->fi->ref, a[i], 0), got = out[i];
+                bool ok = is_nan(exp) ? is_nan(got) : (got == exp || (is_zero(got) && is_zero(exp)));
+                digest = digest * 1099511628211ull + got;
+                if (!ok) {
+                    apply_env(Env());
+                    char d[200]; std::snprintf(d, sizeof d, "lane %u: a=%08x(%s) got=%08x expected=%08x under %s (exhaustive sweep)", i, a[i], classify<std::uint32_t>(a[i]), got, exp, envs);
+                    rr.log.linef("%d callrange %s %s %s lo=%llx FAIL at %08x", stepno, o->op->fn, o->op->type, envs, (unsigned long long)lo, a[i]);
+                    rr.violate(o->fi->prop, stepno, {o->fi->prop, "value", o->op->fn, o->op->type, envs}, d); return;
+                }
+            }
+        }
+        const std::uint32_t mx1 = get_mxcsr(); apply_env(Env());
+        if ((mx0 & MX_CTRL) != (mx1 & MX_CTRL)) rr.violate("C11", stepno, {"C11", "env_changed", o->op->fn, o->op->type, envs}, "MXCSR control bits changed during an exhaustive sweep chunk");
+        rr.log.linef("%d callrange %s %s %s lo=%llx n=%llu -> %016llx", stepno, o->op->fn, o->op->type, envs, (unsigned long long)lo, (unsigned long long)count, (unsigned long long)digest);
+        stats.probes["exhaustive_float32_patterns"] += count;
+        stats.case_seen(std::string("exh|") + o->op->type + "|" + o->op->fn + "|" + envs + "|" + std::to_string(lo >> 24), true);
+    }
+
     const AOp* find_api(const std::string& type, const std::string& fn) { for (auto o : api) if (type == o->type && fn == o->fn) return o; return nullptr; }
 
     // operand bytes for the API slice: floats come from the stratified list (so that NaN, inf, subnormals and
@@ -402,6 +450,8 @@ struct FenvEngine : Engine {
                 if (!o) { rr.log.linef("%d skip (type/fn not in this configuration)", stepno); ++stepno; rr.steps_done = stepno; continue; }
                 if (o->op->elem == 4) check_call<std::uint32_t>(*o, st, stepno, env, rr, stats);
                 else check_call<std::uint64_t>(*o, st, stepno, env, rr, stats);
+            } else if (st.op == "callrange") {
+                callrange_step(st, stepno, env, rr, stats);
             } else if (st.op == "api") {
                 api_step(st, stepno, env, rr, stats);
             } else { rr.harness_error = "unknown step op " + st.op; return; }
@@ -413,7 +463,7 @@ struct FenvEngine : Engine {
 
     std::string extra_json() override {
         std::string s = "{\"types\":" + json_strlist(types) + ",\"ops_in_focus\":" + std::to_string(ops.size()) +
-            ",\"stratified_f32\":" + std::to_string(L32.size()) + ",\"stratified_f64\":" + std::to_string(L64.size()) + "}";
+            ",\"exhaustive_float32_ops\":" + std::to_string(exh_ops.size()) + ",\"stratified_f32\":" + std::to_string(L32.size()) + ",\"stratified_f64\":" + std::to_string(L64.size()) + "}";
         return s;
     }
 };
